@@ -275,6 +275,8 @@ def cli_case(ctx, shard, i, rng):
         ladder = nice_seq(start, start * 60) if spec in ("N", "<r>N") else binary_seq(start, start * 60)
         member = ladder[int(rng.integers(2, min(len(ladder), 5)))]
         total = 256 * member
+        if rng.random() < 0.5:
+            total -= int(rng.integers(1, 256))      # strictly inside (256*(member-1), 256*member): the bound rounds UP
         l2 = int(rng.integers(100, 700)) * b
         lengths = [total - l2, l2]
     bt = [["chr1", gen.fixed_edges(lengths[0], b)], ["chrX", gen.fixed_edges(lengths[1], b)]]
